@@ -459,6 +459,13 @@ impl MdkSqliteStorage {
     {
         #[cfg(mdk_verif)]
         crate::verif_hooks::tick_here();
+        #[cfg(mdk_verif)]
+        let f = move |c: &Connection| {
+            let before = c.total_changes();
+            let out = f(c);
+            crate::verif_hooks::note_write(c.total_changes() != before);
+            out
+        };
         let conn = self.connection.lock().unwrap();
         f(&conn)
     }
